@@ -52,19 +52,105 @@ Fixpoint lsn_ok_rev (h : list lobs) : bool :=
 (* h: oldest first *)
 Definition C06_lsn_ok (h : list lobs) : bool := lsn_ok_rev (rev h).
 
-(* ---- the relational part (not property text): replay on the model ----
-   On loopback with one request in flight at a time, every clock value comes
-   from one kernel clock, so besides the property clauses the observed
-   history must be what the model produces when it is given the observed
-   receive stamp as receive time and the observed reference stamp (the
-   software transmit time of the exchange, carried by every reply) as clock
-   reading.  The kernel transmit stamp of a reply is not observable until an
-   interleaved reply serves it; it must lie between the software transmit time
-   of that exchange and the receive stamp of the request that asks for it
-   (the request was sent after the reply had arrived), strictly later than the
-   software time when both exchanges went through one listener socket (that
-   listener goroutine records the kernel stamp before it reads the next
-   request). *)
+(* ==== what is evaluated on the real listeners (kinds lsn.hist, lsn.slowlink, lsn.fallback) ====
+   Besides the datagrams the harness observes, per exchange:
+   - w_ref: the reference stamp of the reply (the listener puts the software transmit time of the
+     exchange there);
+   - w_crx: the CLIENT's kernel receive stamp of the reply (SO_TIMESTAMPING on the client socket; the
+     harness's clock reading after the read when the kernel gave none): on loopback every stamp comes
+     from one clock, and the kernel transmits a datagram before it delivers it;
+   - w_unread: the listener itself reported "failed to read packet tx timestamp" for this exchange;
+   - w_fb: for an exchange that reached the listener WITHOUT kernel receive stamp (timestamping
+     switched off on the listener's socket) the two readings V, W the scripted clock handed out
+     (receive-time fallback, handling time).
+   The rows are in the order in which the listener handled the requests.
+
+   wire_step_ok = the theorem-backed clauses of lsn_step_ok plus, from the property text and monotone
+   time (these are NOT consequences of the model for arbitrary clock values, they are what the
+   property says about a listener whose stamps come from one monotone clock):
+   - the receive stamp differs from every receive stamp an earlier reply to this client carried
+     (the kept ones are among them; an exchange reported unread is dropped and does not count);
+   - a basic reply's transmit stamp is later than its receive stamp (the clock reading at handling
+     time is later than the receive time; for a scripted reading W <= V the text requires nothing);
+   - an interleaved reply serves the kernel transmit stamp of the exchange it names: never one the
+     listener reported unread ("dropped rather than served"), not earlier than the software transmit
+     time which that (basic) reply carried (unless that time was a scripted reading), not later than the client's receipt of that reply;
+   - interleaved WHENEVER due: the request's receive and transmit fields differ and its origin is the
+     receive stamp of the most recent exchange of this client, whose transmit stamp was read - that
+     exchange is on record (nothing but a later exchange of the same client, or 2^20 other clients,
+     can displace it: C06_frame), so the reply must be interleaved;
+   - without kernel receive stamp the receive stamp is the clock reading V, moved by at most 8 ns and
+     only past stamps that earlier replies to this client carried. *)
+Record wobs := { w_obs : lobs; w_ref : Z; w_sock : Z; w_crx : Z; w_unread : bool; w_fb : option (Z * Z) }.
+
+Definition same_client_rx (cl rx : Z) (p : wobs) : bool := (l_cl (w_obs p) =? cl) && (l_rx (w_obs p) =? rx).
+
+(* older: newest first *)
+Definition wire_find (cl rx : Z) (older : list wobs) : option wobs := find (same_client_rx cl rx) older.
+Definition wire_latest (cl : Z) (older : list wobs) : option wobs := find (fun p => l_cl (w_obs p) =? cl) older.
+
+(* without kernel receive stamp: the reply's receive stamp is to64 (v + d) for some d <= n where every
+   skipped stamp to64 (v + e), e < d, was carried by an earlier reply to this client (a collision is
+   possible only with a stamp that was handed out before) *)
+Fixpoint fb_rx_ok (cl : Z) (older : list wobs) (rx v : Z) (n : nat) : bool :=
+  (rx =? to64 v) ||
+  match n with
+  | O => false
+  | S m => existsb (fun p => same_client_rx cl (to64 v) p && negb (w_unread p)) older && fb_rx_ok cl older rx (v + 1) m
+  end.
+
+Definition wire_step_ok (strict : bool) (older : list wobs) (o : wobs) : bool :=
+  let ob := w_obs o in
+  lsn_step_ok (map (fun p => lsn_key (w_obs p)) older) ob &&
+  (match w_fb o with
+   | Some _ => true   (* a scripted reading may repeat a stamp that is no longer kept; fb_rx_ok below *)
+   | None => negb (existsb (fun p => same_client_rx (l_cl ob) (l_rx ob) p && negb (w_unread p)) older)
+   end) &&
+  (if lsn_inter ob then
+     match wire_find (l_cl ob) (q_org (l_q ob)) older with
+     | Some j =>
+         negb (w_unread j) &&
+         (if lsn_inter (w_obs j) then true else match w_fb j with Some _ => true | None => l_tx (w_obs j) <=? l_tx ob end) &&
+         (l_tx ob <=? w_crx j)
+     | None => false
+     end
+   else
+     (match w_fb o with Some (v, w) => if v <? w then l_rx ob <? l_tx ob else true | None => l_rx ob <? l_tx ob end) &&
+     (* whenever due *)
+     (if strict && negb (q_rx (l_q ob) =? q_tx (l_q ob)) then
+        match wire_latest (l_cl ob) older with
+        | Some j => negb ((l_rx (w_obs j) =? q_org (l_q ob)) && negb (w_unread j))
+        | None => true
+        end
+      else true)) &&
+  match w_fb o with
+  | Some (v, _) => fb_rx_ok (l_cl ob) older (l_rx ob) v 8
+  | None => true
+  end.
+
+Fixpoint wire_ok_rev (strict : bool) (h : list wobs) : bool :=
+  match h with
+  | [] => true
+  | o :: older => wire_step_ok strict older o && wire_ok_rev strict older
+  end.
+
+(* h: oldest first (handling order); strict: every failure report of the listener is attributed to
+   its exchange (otherwise the whenever-due clause is not evaluated) *)
+Definition C06_wire_ok (strict : bool) (h : list wobs) : bool := wire_ok_rev strict (rev h).
+
+(* ---- the relational part: replay on the model ----
+   The observed history must be what the model produces when it is given, per exchange, the
+   observed receive stamp as receive time and the observed reference stamp as clock reading (for
+   an exchange without kernel receive stamp: the scripted readings V and W themselves - there the
+   comparison is exact).  The store of the model keeps the software transmit times; an exchange the
+   listener reported unread is dropped in the model as well.  A kernel transmit stamp becomes
+   visible only when an interleaved reply serves it: it must lie between the software transmit time
+   of its exchange and the receive stamp of the request that asks for it (strictly later than the
+   software time when both exchanges went through one listener socket: that goroutine records the
+   kernel stamp before it reads the next request).  seq: one request in flight at a time (lsn.hist),
+   then the stamps of consecutive exchanges are ordered as well.  Every reply that is basic although
+   the model expects an interleaved one is counted (drops); the glue allows as many as the listener
+   reported failures that could not be attributed - none otherwise. *)
 
 (* the nanoseconds of a Time64 number (era 0): the least time whose stamp it is (Time64FromTime
    rounds the fraction down, so the inverse rounds up); the replay checks to64 (ns_of_64 x) = x *)
@@ -72,149 +158,64 @@ Definition ns_of_64 (x : Z) : Z :=
   let sec := x / 4294967296 in let frac := x mod 4294967296 in
   (sec + ntp_epoch) * nanos_per_sec + (frac * nanos_per_sec + 4294967295) / 4294967296.
 
-Record lstep := { s_obs : lobs; s_ref : Z; s_sock : Z }.
-
-(* socket that carried the exchange whose reply had this (client, receive stamp) *)
 Fixpoint sock_of (cl rx : Z) (l : list (Z * Z * Z)) : option Z :=
   match l with
   | [] => None
   | (c, r, k) :: rest => if (c =? cl) && (r =? rx) then Some k else sock_of cl rx rest
   end.
 
-Record lacc := { la_state : option tss; la_socks : list (Z * Z * Z); la_prev_ref : Z; la_ok : bool; la_drops : nat }.
+Record wacc := { wa_state : option tss; wa_socks : list (Z * Z * Z); wa_prev_ref : Z; wa_ok : bool; wa_drops : nat }.
 
 Definition basic_shape (o : lobs) (ref : Z) : bool :=
-  (l_org o =? q_tx (l_q o)) && (l_tx o =? ref) && (l_rx o <? l_tx o).
+  (l_org o =? q_tx (l_q o)) && (l_tx o =? ref).
 
-Definition lsn_model_step (a : lacc) (st : lstep) : lacc :=
-  let o := s_obs st in
-  let rxt := ns_of_64 (l_rx o) in let now := ns_of_64 (s_ref st) in
-  let times_ok := (to64 rxt =? l_rx o) && (to64 now =? s_ref st) && (la_prev_ref a <? l_rx o) && (l_rx o <? s_ref st) in
-  let socks' := (l_cl o, l_rx o, s_sock st) :: la_socks a in
-  match la_state a with
-  | None => {| la_state := None; la_socks := socks'; la_prev_ref := s_ref st; la_ok := false; la_drops := la_drops a |}
-  | Some s =>
-      match handle real_config s (l_cl o) (l_q o) rxt now 0 with
-      | None => {| la_state := None; la_socks := socks'; la_prev_ref := s_ref st; la_ok := false; la_drops := la_drops a |}
-      | Some out =>
-          let r := o_reply out in
-          let common := times_ok && (r_rx r =? l_rx o) && (r_ref r =? s_ref st) in
-          if r_inter r then
-            if lsn_inter o then
-              (* the model's store holds the software transmit time of the earlier exchange *)
-              let strict := match sock_of (l_cl o) (q_org (l_q o)) (la_socks a) with
-                            | Some k => k =? s_sock st
-                            | None => false
-                            end in
-              let tx_ok := (r_tx r <=? l_tx o) && (l_tx o <=? l_rx o) && (if strict then r_tx r <? l_tx o else true) in
-              {| la_state := Some (o_state out); la_socks := socks'; la_prev_ref := s_ref st;
-                 la_ok := la_ok a && common && (r_org r =? l_org o) && tx_ok; la_drops := la_drops a |}
-            else
-              (* served basic although the exchange should be on record: its transmit stamp could not be
-                 read and it was dropped (allowed by the property; counted, see the glue) *)
-              let s1 := t_state (update_tx s (l_cl o) (ns_of_64 (q_org (l_q o))) (ns_of_64 (r_tx r))) in
-              match handle real_config s1 (l_cl o) (l_q o) rxt now 0 with
-              | Some out1 =>
-                  {| la_state := Some (o_state out1); la_socks := socks'; la_prev_ref := s_ref st;
-                     la_ok := la_ok a && common && negb (r_inter (o_reply out1)) && basic_shape o (s_ref st);
-                     la_drops := S (la_drops a) |}
-              | None => {| la_state := None; la_socks := socks'; la_prev_ref := s_ref st; la_ok := false; la_drops := la_drops a |}
-              end
-          else
-            {| la_state := Some (o_state out); la_socks := socks'; la_prev_ref := s_ref st;
-               la_ok := la_ok a && common && negb (lsn_inter o) && basic_shape o (s_ref st); la_drops := la_drops a |}
-      end
-  end.
-
-Definition lsn_model_run (h : list lstep) : lacc :=
-  fold_left lsn_model_step h
-    {| la_state := Some tss_empty; la_socks := []; la_prev_ref := 0; la_ok := true; la_drops := O |}.
-
-(* at most one unexplained drop per history *)
-Definition C06_lsn_agree (h : list lstep) : bool :=
-  let a := lsn_model_run h in la_ok a && Nat.leb (la_drops a) 1.
-
-(* ---- kind lsn.slowlink: the listeners behind a rate-limited loopback ----
-   Besides the datagrams, two more observations: the harness's own clock
-   reading after it read each reply (sw_crecv, same clock as the kernel stamps)
-   and whether the listener itself reported that it could not read the
-   transmit timestamp of that exchange (sw_unread).  The property: an
-   interleaved reply serves "the transmit time recorded for the earlier reply
-   ..., the kernel transmit timestamp once it has been read, and an exchange
-   for which none could be read is dropped from the record rather than served".
-   With monotone time, the kernel transmit timestamp of a reply
-   - is not earlier than the software transmit time that this very reply carries
-     in its transmit field when it is a basic reply (the listener reads its clock,
-     fills the packet, then hands it to the kernel), and
-   - is not later than the moment the client has the reply in its hands. *)
-Record sobs := { sw_obs : lobs; sw_crecv : Z; sw_unread : bool }.
-
-(* margin for reading the clock: 1 ms in Time64 units *)
-Definition slow_margin : Z := 4294968.
-
-(* the most recent earlier reply to this client that carried this receive stamp (older: newest first) *)
-Definition slow_find (cl rx : Z) (older : list sobs) : option sobs :=
-  find (fun p => (l_cl (sw_obs p) =? cl) && (l_rx (sw_obs p) =? rx)) older.
-
-Definition slow_step_ok (older : list sobs) (o : sobs) : bool :=
-  lsn_step_ok (map (fun p => lsn_key (sw_obs p)) older) (sw_obs o) &&
-  (if lsn_inter (sw_obs o) then
-     match slow_find (l_cl (sw_obs o)) (q_org (l_q (sw_obs o))) older with
-     | Some j =>
-         negb (sw_unread j) &&                                               (* dropped, not served *)
-         (if lsn_inter (sw_obs j) then true else l_tx (sw_obs j) <=? l_tx (sw_obs o)) &&   (* not before the software transmit time *)
-         (l_tx (sw_obs o) <=? sw_crecv j + slow_margin)                       (* not after the client had the reply *)
-     | None => false
-     end
-   else true).
-
-Fixpoint slow_ok_rev (h : list sobs) : bool :=
-  match h with
-  | [] => true
-  | o :: older => slow_step_ok older o && slow_ok_rev older
-  end.
-
-(* h: oldest first *)
-Definition C06_slow_ok (h : list sobs) : bool := slow_ok_rev (rev h).
-
-(* relational part: replay on the model in the order the listener goroutine handled the requests
-   (one client socket per history).  An exchange whose transmit stamp the listener could not read
-   is dropped in the model too; bursts are in flight together, so only the order of the stamps of
-   one exchange and the bracket of a served stamp are compared. *)
-Record sstepr := { ss_obs : sobs; ss_ref : Z }.
-
-Record sacc := { sa_state : option tss; sa_ok : bool; sa_drops : nat }.
-
-Definition slow_model_step (a : sacc) (st : sstepr) : sacc :=
-  let o := sw_obs (ss_obs st) in
-  let rxt := ns_of_64 (l_rx o) in let now := ns_of_64 (ss_ref st) in
-  let times_ok := (to64 rxt =? l_rx o) && (to64 now =? ss_ref st) && (l_rx o <? ss_ref st) in
-  let bad := {| sa_state := None; sa_ok := false; sa_drops := sa_drops a |} in
-  let finish (s' : tss) (ok : bool) (drops : nat) :=
-    (* the listener's report for this exchange *)
-    let s2 := if sw_unread (ss_obs st) then t_state (update_tx s' (l_cl o) rxt now) else s' in
-    {| sa_state := Some s2; sa_ok := sa_ok a && ok; sa_drops := drops |} in
-  match sa_state a with
+Definition wire_model_step (seq : bool) (a : wacc) (st : wobs) : wacc :=
+  let o := w_obs st in
+  let '(rxt, now) := match w_fb st with Some (v, w) => (v, w) | None => (ns_of_64 (l_rx o), ns_of_64 (w_ref st)) end in
+  let times_ok :=
+    match w_fb st with
+    | Some _ => true
+    | None => (to64 rxt =? l_rx o) && (to64 now =? w_ref st) && (l_rx o <? w_ref st) &&
+              (if seq then wa_prev_ref a <? l_rx o else true)
+    end in
+  (* socket of the exchange; -1 for an exchange whose software times were scripted readings *)
+  let socks' := (l_cl o, l_rx o, match w_fb st with Some _ => -1 | None => w_sock st end) :: wa_socks a in
+  let bad := {| wa_state := None; wa_socks := socks'; wa_prev_ref := w_ref st; wa_ok := false; wa_drops := wa_drops a |} in
+  let finish (s' : tss) (out : outcome) (ok : bool) (drops : nat) :=
+    (* the listener's report for this exchange: unread = the software time is reported again, the exchange is dropped *)
+    let s2 := if w_unread st then t_state (update_tx s' (l_cl o) (o_rxt out) (o_txt out)) else s' in
+    {| wa_state := Some s2; wa_socks := socks'; wa_prev_ref := w_ref st; wa_ok := wa_ok a && ok; wa_drops := drops |} in
+  match wa_state a with
   | None => bad
   | Some s =>
       match handle real_config s (l_cl o) (l_q o) rxt now 0 with
       | None => bad
       | Some out =>
           let r := o_reply out in
-          let common := times_ok && (r_rx r =? l_rx o) && (r_ref r =? ss_ref st) in
+          let common := times_ok && (r_rx r =? l_rx o) && (r_ref r =? w_ref st) in
           if r_inter r then
             if lsn_inter o then
-              finish (o_state out) (common && (r_org r =? l_org o) && (r_tx r <=? l_tx o) && (l_tx o <=? l_rx o)) (sa_drops a)
+              let named := sock_of (l_cl o) (q_org (l_q o)) (wa_socks a) in
+              let named_scripted := match named with Some k => k <? 0 | None => false end in
+              let strict := match named with Some k => k =? w_sock st | None => false end in
+              let scripted := match w_fb st with Some _ => true | None => false end in
+              let tx_ok := (if named_scripted then true else r_tx r <=? l_tx o) &&
+                           (if scripted then true else l_tx o <=? l_rx o) &&
+                           (if strict then r_tx r <? l_tx o else true) in
+              finish (o_state out) out (common && (r_org r =? l_org o) && tx_ok) (wa_drops a)
             else
               let s1 := t_state (update_tx s (l_cl o) (ns_of_64 (q_org (l_q o))) (ns_of_64 (r_tx r))) in
               match handle real_config s1 (l_cl o) (l_q o) rxt now 0 with
-              | Some out1 => finish (o_state out1) (common && negb (r_inter (o_reply out1)) && basic_shape o (ss_ref st)) (S (sa_drops a))
+              | Some out1 => finish (o_state out1) out1 (common && negb (r_inter (o_reply out1)) && basic_shape o (w_ref st)) (S (wa_drops a))
               | None => bad
               end
-          else finish (o_state out) (common && negb (lsn_inter o) && basic_shape o (ss_ref st)) (sa_drops a)
+          else finish (o_state out) out (common && negb (lsn_inter o) && basic_shape o (w_ref st)) (wa_drops a)
       end
   end.
 
-Definition C06_slow_agree (h : list sstepr) : bool :=
-  let a := fold_left slow_model_step h {| sa_state := Some tss_empty; sa_ok := true; sa_drops := O |} in
-  sa_ok a && Nat.leb (sa_drops a) 1.
+Definition wire_model_run (seq : bool) (h : list wobs) : wacc :=
+  fold_left (wire_model_step seq) h
+    {| wa_state := Some tss_empty; wa_socks := []; wa_prev_ref := 0; wa_ok := true; wa_drops := O |}.
+
+Definition C06_wire_agree (seq : bool) (tolerated : nat) (h : list wobs) : bool :=
+  let a := wire_model_run seq h in wa_ok a && Nat.leb (wa_drops a) tolerated.
